@@ -353,6 +353,85 @@ def colliding_paths(ctx, rng):
             shutil.rmtree(root, ignore_errors=True)
 
 
+# paths whose hashes are zero (found by inverting the CRC; checked against zlib when the module loads): an all-zero hash is a hash like
+# any other, not an empty slot. First: full-path hash 0 (index2); second: folder hash 0 and file-name hash 0 (index)
+ZERO_HASH_PATHS = ["exd/kjmclhy1m.exh", "chara/equipment/evugyy1hl2/cefwfcgguk.mdl"]
+assert sq.hash2(ZERO_HASH_PATHS[0]) == 0 and sq.hash1(ZERO_HASH_PATHS[1]) in ((0, 0), 0), (sq.hash2(ZERO_HASH_PATHS[0]), sq.hash1(ZERO_HASH_PATHS[1]))
+
+
+def small_installation(root, cat, kind, paths, payloads):
+    rd = os.path.join(root, "sqpack", "ffxiv")
+    os.makedirs(rd, exist_ok=True)
+    db = sq.DatBuilder(0)
+    ents = []
+    for p, pl in zip(paths, payloads):
+        entry, _ = sq.standard_entry([pl], ["raw"])
+        off = db.add(entry)
+        ents.append((sq.hash1(p) if kind == 1 else sq.hash2(p), 0, off, False))
+    open(os.path.join(rd, sq.dat_filename(sq.CATEGORIES[cat], 0, 0, "win32", 0)), "wb").write(db.bytes())
+    open(os.path.join(rd, sq.index_filename(sq.CATEGORIES[cat], 0, 0, "win32", kind)), "wb").write(sq.index_file(kind, ents, 0, ndats=1))
+
+
+def ask(ctx, hd, path, want, payload, cls, root, extra):
+    for op in ("exists", "extract"):
+        rec = ctx.call("gd." + op, hd, path, *(["-"] if op == "extract" else []), input_bytes=8192)
+        ctx.check_mon(rec, 8192, residual=False, files=[root])
+        if rec.outcome not in ("ok", "none"):
+            continue
+        said = bool(rec.value) if op == "exists" else rec.ok
+        ctx.case(digest(cls, path, op, want, repr(extra)), True, [cls], sample=dict(path=path, expected_present=want, **extra) if op == "exists" else None)
+        if said != want:
+            ctx.violation("lookup", dict(sub="present_but_not_stored" if said else "stored_but_absent", q=op, cls=cls), dict(queried=path, **extra), files=[root])
+        elif want and op == "extract" and bytes.fromhex((rec.value or {}).get("hex", "")) != payload:
+            ctx.violation("lookup", dict(sub="wrong_content", q=op, cls=cls), dict(queried=path, **extra), files=[root])
+
+
+def zero_hashes_and_reopen(ctx, rng):
+    """(1) stored paths whose hash is 0; (2) a second handle opened on a directory after one of its index files was replaced: it must
+    answer from the files as they are now, whatever an earlier handle of the same process had loaded from the same file names"""
+    for kind, zp_ in ((2, ZERO_HASH_PATHS[0]), (1, ZERO_HASH_PATHS[1])):
+        root = ctx.path("game-zero%d" % kind)
+        cat = zp_.split("/")[0]
+        sib = zp_.rsplit("/", 1)[0] + "/" + seg(rng, 5, 9).lower() + ".dat"
+        try:
+            small_installation(root, cat, kind, [zp_, sib], [b"LOC zero-hash path", b"LOC sibling"])
+            r = ctx.call("gd.open", "win32", root)
+            if r.ok:
+                for p, pl in rng.sample([(zp_, b"LOC zero-hash path"), (sib, b"LOC sibling"), (zp_.upper(), b"LOC zero-hash path")], 3):
+                    ask(ctx, r.value["handle"], p, True, pl, "hash-zero-path", root, dict(index_kind=kind))
+                ask(ctx, r.value["handle"], zp_[:-1] + "x", False, b"", "hash-zero-path", root, dict(index_kind=kind))
+                ctx.call("drop", r.value["handle"])
+        finally:
+            shutil.rmtree(root, ignore_errors=True)
+    for kind in (1, 2):
+        root = ctx.path("game-reopen%d" % kind)
+        cat = rng.choice(["bg", "chara", "exd", "music"])
+        gen = lambda: ["%s/%s/%s.%s" % (cat, seg(rng, 3, 8).lower(), seg(rng, 3, 10).lower(), rng.choice(["dat", "tex", "mdl"])) for _ in range(rng.randint(2, 6))]
+        s1, s2 = gen(), gen()
+        keep = rng.random() < 0.5
+        try:
+            small_installation(root, cat, kind, s1, [("LOC first %d" % i).encode() for i in range(len(s1))])
+            r1 = ctx.call("gd.open", "win32", root)
+            if not r1.ok:
+                continue
+            for p in s1 + s2[:1]:
+                ctx.call("gd.exists", r1.value["handle"], p)           # the first handle loads (and may keep) the file; it is not judged afterwards
+            if not keep:
+                ctx.call("drop", r1.value["handle"])
+            small_installation(root, cat, kind, s2, [("LOC second %d" % i).encode() for i in range(len(s2))])
+            r2 = ctx.call("gd.open", "win32", root)
+            if r2.ok:
+                extra = dict(index_kind=kind, first_handle_still_open=keep)
+                for p in rng.sample(s1 + s2, len(s1) + len(s2)):
+                    want = p in s2
+                    ask(ctx, r2.value["handle"], p, want, ("LOC second %d" % s2.index(p)).encode() if want else b"", "reopened-after-index-replaced", root, extra)
+                ctx.call("drop", r2.value["handle"])
+            if keep:
+                ctx.call("drop", r1.value["handle"])
+        finally:
+            shutil.rmtree(root, ignore_errors=True)
+
+
 def two_handles(ctx, rng, nq):
     """two installations open at the same time, queries interleaved between the two handles (and a second handle on the first
     installation): an answer must come from the handle's own installation, whatever another live handle has loaded"""
@@ -395,6 +474,7 @@ def shard(ctx):
         two_handles(ctx, rng, 120)
     if ctx.index % 4 == 0 and ctx.variant != "asan":
         colliding_paths(ctx, rng)
+    zero_hashes_and_reopen(ctx, rng)
     for i in range(P["n"]):
         root = ctx.path("game%d" % i)
         shape = "normal"
